@@ -164,23 +164,11 @@ func (it *indexedMessageIterator) parseSummarySection() error {
 			if err != nil {
 				return fmt.Errorf("failed to parse chunk index: %w", err)
 			}
-			// if the chunk overlaps with the requested parameters, load it
+			// If the chunk overlaps with the requested time range it is a candidate. The topic
+			// selection is applied when the footer is reached: the summary groups may come in any
+			// order, so the channel records may not have been read yet.
 			if (it.end == 0 && it.start == 0) || ((idx.MessageStartTime < it.end || it.noEnd) && idx.MessageEndTime >= it.start) {
-				// Can't infer absence of a topic if there are no message indexes.
-				if len(idx.MessageIndexOffsets) == 0 {
-					it.chunkIndexes = append(it.chunkIndexes, idx)
-					continue
-				}
-				// Otherwise, scan the message index offsets and see if we are
-				// selecting it. ChannelInfo is set only for selected topics.
-				// NB: It would be nice if we had a more compact/direct
-				// representation of what channels are in a chunk.
-				for chanID := range idx.MessageIndexOffsets {
-					if it.channels.Get(chanID) != nil {
-						it.chunkIndexes = append(it.chunkIndexes, idx)
-						break
-					}
-				}
+				it.chunkIndexes = append(it.chunkIndexes, idx)
 			}
 		case TokenStatistics:
 			stats, err := ParseStatistics(record)
@@ -189,6 +177,25 @@ func (it *indexedMessageIterator) parseSummarySection() error {
 			}
 			it.statistics = stats
 		case TokenFooter:
+			// With a topic selection, drop the chunks whose message indexes show that they hold no
+			// message on a selected channel (it.channels holds only the selected channels).
+			// Absence of a topic cannot be inferred from a chunk without message indexes.
+			if len(it.topics) > 0 {
+				selected := it.chunkIndexes[:0]
+				for _, idx := range it.chunkIndexes {
+					keep := len(idx.MessageIndexOffsets) == 0
+					for chanID := range idx.MessageIndexOffsets {
+						if it.channels.Get(chanID) != nil {
+							keep = true
+							break
+						}
+					}
+					if keep {
+						selected = append(selected, idx)
+					}
+				}
+				it.chunkIndexes = selected
+			}
 			// sort chunk indexes in the order that they will need to be loaded, depending on the specified
 			// read order.
 			switch it.order {
